@@ -3,25 +3,82 @@ from vlib import histories, invariants, snapshot
 
 LEVEL = 'exploration'
 RULE = ('reference-rich seeded histories (Ref, RefList, self references, two-way pairs, reference columns with default '
-        'formulas, references in metadata); every bundle that removes rows (record removal, bulk removal, table removal '
-        'cascade, view/section/field removal, summary auto-removal) is judged: no data Ref cell equals a removed id, no data '
-        'RefList contains one, RefLists keep their other ids in order (None when nothing remains), cells that held none are '
-        'unchanged unless written by the bundle. A case = one bundle; non-trivial = rows were removed from a table that some '
-        'data Ref/RefList column points at; distinct by (user-action kinds, stored shape).')
-ASSUMPTIONS = ['formula Ref columns and wrong-typed cells are ignored', 'the order/untouched clauses are only judged for columns the bundle did not write']
-REQUIRED = {'C10.checked': {'quick': 300, 'thorough': 6000}, 'removal_bundles': {'quick': 60, 'thorough': 1200}}
+        'formulas, summary tables grouped by reference columns, references in metadata); every bundle after which rows are '
+        'gone (record removal, bulk removal, table / column / view / section / field removal with their cascades, summary '
+        'auto-removal) is judged on the snapshots before and after it: no data Ref cell of a user or metadata table equals a '
+        'removed id, no data RefList contains one, and a RefList cell equals its old list without the removed ids (None when '
+        'nothing remains). A case = one bundle; non-trivial = rows were removed from a table that some judged data '
+        'Ref/RefList column points at; distinct by (user-action kinds, stored shape).')
+ASSUMPTIONS = ['formula Ref columns and wrong-typed cells are ignored',
+               'a column that an action of the same bundle may have written after the first removing action (directly, through '
+               'a default/trigger formula of an added or updated record, through its two-way partner, or as the group-by copy '
+               'in a summary table) is not judged; a bundle in which a schema-level writer follows a removing action is not judged',
+               'the comparison of a RefList with its old value is only made for columns no action of the bundle wrote',
+               'reference columns whose trigger formula runs again on updates (recalcWhen 2 or recalcDeps) are not judged: '
+               'what they hold is what the formula says']
+REQUIRED = {'C10.checked': {'quick': 3000, 'thorough': 30000}, 'removal_bundles': {'quick': 60, 'thorough': 600},
+            'reflist_cells_that_held_removed_ids': {'quick': 5, 'thorough': 100}}
 
 WEIGHTS = {'add_ref_column': 12, 'add_reverse': 3, 'add_records': 16, 'update_records': 14, 'remove_records': 14, 'remove_table': 1.5,
            'remove_view': 1, 'remove_section': 1.5, 'remove_field': 1, 'remove_page': 0.5, 'create_summary': 2, 'create_section': 1,
            'add_view': 0.6, 'add_formula_column': 1.5, 'modify_type': 1.5, 'invalid': 0.5, 'duplicate_table': 0.5,
-           'add_filter': 0.6, 'add_field': 0.6, 'set_display_formula': 1, 'add_empty_rule': 0.6, 'remove_column': 1.5}
+           'add_filter': 0.6, 'add_field': 0.6, 'set_display_formula': 2, 'set_visible_col': 1.5, 'add_empty_rule': 1.5,
+           'remove_column': 3}
+
+EXPLICIT_REMOVERS = ('RemoveRecord', 'BulkRemoveRecord', 'RemoveTable', 'RemoveView', 'RemoveViewSection', 'RemoveColumn')
+NEUTRAL = ('Calculate', 'RemoveStaleObjects')
+RECORD_WRITERS = ('AddRecord', 'BulkAddRecord', 'UpdateRecord', 'BulkUpdateRecord')
+
 
 def plan(tier, seed):
-  n, steps = (16, 50) if tier == 'quick' else (160, 90)
+  n, steps = (16, 50) if tier == 'quick' else (64, 90)
   return [{'hseed': seed * 100003 + 10000 + i, 'steps': steps} for i in range(n)]
 
 
+def is_record_writer(a):
+  return (isinstance(a, list) and len(a) > 3 and a[0] in RECORD_WRITERS and isinstance(a[1], str)
+          and not a[1].startswith('_grist_') and isinstance(a[3], dict))
+
+
+def columns_written(actions, refcols, named=True):
+  """Columns that plain record actions on user tables may write: the ones they name (if `named`), and
+  every reference column of the same table that has a default / trigger formula."""
+  out = set()
+  for a in actions:
+    if is_record_writer(a):
+      if named:
+        for c in a[3]:
+          out.add((a[1], c))
+      for (t, c), info in refcols.items():
+        if t == a[1] and info['formula']:
+          out.add((t, c))
+  return out
+
+
+def judge(S0, S1, bundle, reply, meta_types=None, stats=None):
+  """-> (list of (mech, msg), cells checked, note). note = why the bundle was not judged, or None."""
+  kinds = histories.action_kinds(bundle)
+  first = next((i for i, k in enumerate(kinds) if k in EXPLICIT_REMOVERS), None)
+  followers = bundle[first + 1:] if first is not None else bundle
+  def unknown(a):
+    k = a[0] if isinstance(a, list) and a else '?'
+    return not is_record_writer(a) and k not in EXPLICIT_REMOVERS and k not in NEUTRAL
+  if first is not None and any(unknown(a) for a in followers):
+    return [], 0, 'schema_writer_after_removal'
+  rc = invariants.ref_columns(S1, meta_types)
+  rc.update({k: v for k, v in invariants.ref_columns(S0, meta_types).items() if k not in rc})
+  # Default / trigger formulas of records added or updated anywhere in the bundle are evaluated when the
+  # bundle ends, i.e. after the removal, whatever the position of the action that touched the record.
+  after = columns_written(followers, rc) | columns_written(bundle, rc, named=False)
+  msgs, n = invariants.c10(S0, S1, written_after=after, written_any=columns_written(bundle, rc),
+                           judge_rest=not any(unknown(a) for a in bundle), meta_types=meta_types, stats=stats)
+  return msgs, n, None
+
+
 class RemovalMonitor(histories.Monitor):
+  def start(self, h):
+    self.meta_types = invariants.meta_types_from_schema(h.proc.call('verif_schema')['schema'])
+
   def after_bundle(self, h, ctx):
     acc = h.acc
     if ctx.reply is None:
@@ -31,26 +88,23 @@ class RemovalMonitor(histories.Monitor):
     if not removed:
       acc.case(None)
       return
-    written = set()
-    for a in ctx.reply.stored:
-      # columns the bundle itself wrote through *direct* record actions
-      pass
-    for ua in ctx.bundle:
-      if ua and ua[0] in ('UpdateRecord', 'BulkUpdateRecord', 'AddRecord', 'BulkAddRecord', 'ReplaceTableData', 'AddOrUpdateRecord'):
-        cv = ua[3] if len(ua) > 3 and isinstance(ua[3], dict) else {}
-        for c in cv:
-          written.add((ua[1], c))
-      elif ua and ua[0] not in ('RemoveRecord', 'BulkRemoveRecord', 'RemoveTable', 'RemoveView', 'RemoveViewSection', 'Calculate'):
-        written.add('*')
-    msgs, n = invariants.c10(ctx.S0, ctx.S1, written_cols=written)
+    stats = {}
+    msgs, n, note = judge(ctx.S0, ctx.S1, ctx.bundle, ctx.reply, self.meta_types, stats)
+    for k, v in stats.items():
+      acc.count(k, v)
+    if note:
+      acc.count('skipped.' + note)
+      acc.case(None)
+      return
     acc.count('C10.checked', n)
     acc.count('removal_bundles')
     for t in removed:
       acc.seen('tables_with_removed_rows', 'meta' if t.startswith('_grist_') else 'user')
-    strict = '*' not in written
+    for k in histories.action_kinds(ctx.bundle):
+      if k in EXPLICIT_REMOVERS:
+        acc.seen('removal_actions', k + (':meta' if any(a[0] == k and isinstance(a[1], str) and a[1].startswith('_grist_')
+                                                         for a in ctx.bundle if isinstance(a, list) and len(a) > 1) else ''))
     for mech, msg in msgs[:3]:
-      if mech in ('reflist.rest', 'reflist.untouched') and not strict:
-        continue
       h.violation(mech, '%s after bundle %s' % (msg, histories.action_kinds(ctx.bundle)), {'bundle': ctx.bundle})
     acc.case(histories.shape_hash(histories.action_kinds(ctx.bundle), histories.stored_shape(ctx.reply.stored)) if n else None,
              {'bundle': ctx.bundle, 'removed': {t: sorted(v) for t, v in removed.items()}})
